@@ -34,7 +34,7 @@ def damaged_texts(rng, n):
     base = [t for _, t in corpus.corpus()]
     out = []
     kinds = ['valid', 'insert', 'delete', 'truncate', 'dup_word', 'random', 'insert_end', 'locked_name', 'blank_lines',
-             'undeclared', 'long_line']
+             'undeclared', 'long_line', 'temporal_edge']
     for i in range(n):
         kind = kinds[i % len(kinds)]
         t = rng.choice(base)
@@ -68,6 +68,22 @@ def damaged_texts(rng, n):
         elif kind == 'undeclared':
             # a concept that nothing declares, in a position that cannot define it -> compilation error
             t = t.rstrip() + '\nIt is prohibited that there is a ' + rng.choice(['zorg', 'blip', 'quux']) + ' with id 1.\n'
+        elif kind == 'temporal_edge':
+            # temporal concept declarations with degenerate numbers: zero / huge lengths, reversed and one-point ranges, malformed values
+            unit = rng.choice(['minutes', 'days', 'steps'])
+            a, b = {'minutes': ('07:30 AM', '09:00 AM'), 'days': ('27/02/2024', '02/03/2024'), 'steps': ('1', '4')}[unit]
+            if rng.random() < 0.3:
+                a, b = b, a
+            if rng.random() < 0.2:
+                b = a
+            if rng.random() < 0.15:
+                a = rng.choice(['25:00 AM', '31/02/2024', '07:30', '0'])
+            ln = rng.choice(['0', '0', '00', '1', '7', '100000', '000'])
+            t = (f'A slot is a temporal concept expressed in {unit} ranging from {a} to {b}'
+                 + (f' with a length of {ln} {unit}.' if unit != 'steps' else '.')
+                 + '\nA visit is identified by an id, and by a slot.\n'
+                 + rng.choice(['', f'It is prohibited that there is a visit with slot T, whenever there is a slot T that is after {b}.\n',
+                               f'It is prohibited that the visit V is before {a}.\n']))
         elif kind == 'long_line':
             # lexical error far to the right on a long sentence (beyond the 40-character context window)
             sents = [x for x in corpus.split_sentences(t) if len(x) > 90 and '\n' not in x]
@@ -187,14 +203,31 @@ def classify(stdout, flags, outcome):
 def _job(args):
     kind, text, flags = args
     rt.enable_lark_cache()
-    out = api_outcome(text, flags)
-    obs = run_main(text, flags)
+    try:
+        with rt.time_limit(TIME_LIMIT):
+            out = api_outcome(text, flags)
+    except rt.NonTermination as e:
+        out = {'outcome': 'nontermination', 'msg': str(e)}
+    if out['outcome'] == 'nontermination':
+        return (kind, text, flags, out, {'uncaught': None, 'stdout': '', 'file': False, 'file_content': None, 'nontermination': True})
+    try:
+        with rt.time_limit(TIME_LIMIT):
+            obs = run_main(text, flags)
+    except rt.NonTermination:
+        obs = {'uncaught': None, 'stdout': '', 'file': False, 'file_content': None, 'nontermination': True}
     return (kind, text, flags, out, obs)
+
+
+TIME_LIMIT = int(os.environ.get('VERIF_TIME_LIMIT', '120'))     # seconds for one call of the real code on a text of at most ~1.5 kB (a compilation takes about 1 s)
 
 
 def _classify_job(text):
     rt.enable_lark_cache()
-    return api_outcome(text, {})['outcome']
+    try:
+        with rt.time_limit(TIME_LIMIT):
+            return api_outcome(text, {})['outcome']
+    except rt.NonTermination:
+        return 'nontermination'
 
 
 def unit_cases(rng, n):
@@ -244,6 +277,13 @@ def main(tier):
             jobs.append((kind, t, FLAGSETS[(k // 2 + 1) % len(FLAGSETS)]))
     results = rt.pmap(_job, jobs, chunksize=2)
     # model requests for the e2e cases
+    nonterm = [r for r in results if r[4].get('nontermination')]
+    results = [r for r in results if not r[4].get('nontermination')]
+    for (kind, text, flags, out, obs) in nonterm:
+        fkey = '+'.join(sorted(k for k, v in flags.items() if v)) or 'plain'
+        run.count(f'{kind}/nontermination/{fkey}')
+        run.violation(f'e2e/nontermination/{kind}', f'the command line did not terminate within {TIME_LIMIT} s on a {len(text)}-character input',
+                      {'text': text, 'flags': flags})
     for (kind, text, flags, out, obs) in results:
         reqs.append(('c18.cli', dict(flags, outcome=out['outcome'], nonempty=out.get('nonempty', False))))
     msg_cases = []
